@@ -354,15 +354,21 @@ class TCPPacketGenerator(Device, OutMixIn):
                 f"Congestion window size = {self.congestion_control.cwnd:.1f}, last ack = {ackno}."
             )
 
-            if ack.packet_id in self.timers:
-                self.timers[ack.packet_id].stop()
-                del self.timers[ack.packet_id]
-                del self.sent_packets[ack.packet_id]
+            # The ACK is cumulative: every segment below `ackno` is acknowledged,
+            # not only the segment that triggered this ACK.
+            for seqno in [s for s in self.timers if s < ackno or s == ack.packet_id]:
+                self.timers[seqno].stop()
+                del self.timers[seqno]
+                del self.sent_packets[seqno]
 
             self.cwnd_avaialbe.put(True)
 
     def resend_packet(self, seqno: int):
-        resent_pkt = self.sent_packets[seqno]
+        resent_pkt = self.sent_packets.get(seqno)
+        if resent_pkt is None:
+            # nothing outstanding at this sequence number (e.g. duplicate ACKs
+            # for the end of the data)
+            return
         resent_pkt.time = self.env.now
         self.dprint(
             "Resending packet {:d} with flow_id {:d} at time {:.4f}.".format(
